@@ -912,8 +912,13 @@ def group_selector_verdict(du: DefUse, sel: ast.AST, at: ast.AST, vec: str) -> T
     from .struct import call_name, kwarg
     name = loc_name(sel)
     if name is None:
-        return "unknown", f"selector `{src(sel)}` is not a name"
-    d = _def_of(du, name, at)
+        # the selector written in place: judged as if it had been held in a local defined right here
+        class _D:
+            kind, value, stmt, unpack_index = "assign", sel, at, None
+        d = _D()
+        name = src(sel)[:40]
+    else:
+        d = _def_of(du, name, at)
     if d is None:
         return "unknown", f"selector `{name}` has no single definition"
     # ---- form A
